@@ -335,6 +335,9 @@ type XHistory struct {
 	Revs    []XRev
 	Version string // "1.4", "1.5", ...
 	Root    XRef   // the catalog; {1,0} if zero
+	// CompressRefs allows objects whose value is an indirect reference to be
+	// stored in object streams (7.5.7 does not except them).
+	CompressRefs bool
 }
 
 func (h *XHistory) root() XRef {
@@ -495,7 +498,7 @@ func RenderHistory(r *Rand, h *XHistory, plain bool, encrypt func(num uint32, ge
 				if _, isStream := a.Value.(*XStream); isStream {
 					continue
 				}
-				if _, isRef := a.Value.(XRef); isRef {
+				if _, isRef := a.Value.(XRef); isRef && !h.CompressRefs {
 					continue
 				}
 				if _, isRaw := a.Value.(XRaw); isRaw {
